@@ -34,12 +34,18 @@ using namespace vp;
 const TargetInfo vp_info = {"c18_silk_sideinfo", 2, 600};
 
 // ---- calibrated numbers (calib/C18.json: observed extremes on the frozen reference) -------
-static const int    LPC_TOL_LSB = 3;          // |a_Q12 - round(4096*a_double)| when no expansion happened
-static const double GAIN_COMFORT = 2000.0;    // a deviating candidate must have a prediction gain above this ...
-static const int    FIT_COMFORT = 32000;      // ... or a coefficient above this magnitude (Q12)
-static const double GAIN_BOUND = 1.0e4 * 1.05;
-static const double INVGAIN_REL_TOL = 0.02;   // library Q30 inverse gain vs double step-down
-static const double GAIN_REL_TOL = 0.01;      // silk_log2lin vs exp2
+// The double-precision NLSF->LPC comparison is made only in the region where the fixed-point conversion is
+// well conditioned and no expansion can be needed: all NLSF gaps (and both ends) >= 128, 4096*A(1) >= 64
+// (the library treats sum(a) >= 1 as unstable), exact prediction gain < 1000, largest coefficient <= 32000.
+static const int    LPC_TOL_LSB = 10;         // observed max 5 LSB over 5.4e6 region cases (60e6 vectors)
+static const int    REGION_MIN_GAP = 128;
+static const double REGION_MIN_DC = 64.0;
+static const double REGION_MAX_GAIN = 1000.0;
+static const double REGION_MAX_COEF = 32000.0;
+static const double GAIN_BOUND = 1.0e4 * 1.25;   // library limit 1e4 on its Q30 estimate; observed max 10177.5 (double) over 1e8 vectors
+static const double INVGAIN_REL_TOL = 0.25;      // library Q30 inverse gain vs double step-down: observed max 0.041, tail ~ /12 per doubling
+static const double COSTAB_TOL = 3.0;             // table vs true cosine: 1.30 (all 129 entries)
+static const double GAIN_REL_TOL = 0.016;        // silk_log2lin vs exp2 over all 64 levels: 0.00783 (exhaustive)
 
 // ---- codebooks --------------------------------------------------------------------------------
 struct Cb { const silk_NLSF_CB_struct* cb; const int16_t* dmin; c18::CbView view; const char* name; };
@@ -65,7 +71,7 @@ static std::string vstr(const T* v, int n) {
   return s;
 }
 
-struct Flags { bool stabilised = false, clipped = false, bwe = false, gain_clamped = false, gain_double = false, lag_clamped = false; };
+struct Flags { bool lpc_compared = false, stabilised = false, clipped = false, bwe = false, gain_clamped = false, gain_double = false, lag_clamped = false; };
 
 // ---- NLSF ---------------------------------------------------------------------------------------
 static int check_nlsf(int cbi, const opus_int8* ind, Report& rep, int16_t* out, Flags& fl) {
@@ -117,20 +123,25 @@ static int check_lpc(const int16_t* nlsf, int d, const opus_int16* a, Report& re
     c18::model_nlsf2a(nlsf, d, silk_LSFCosTab_FIX_Q12, am);
     int16_t cand[16];
     int maxdev = 0;
-    double maxabs = 0;
+    double maxabs = 0, sum = 0;
     for (int i = 0; i < d; i++) {
       double q = std::floor(am[i] * 4096.0 + 0.5);
+      sum += am[i];
       if (std::fabs(q) > maxabs) maxabs = std::fabs(q);
       double dv = std::fabs(q - a[i]);
       if (dv > maxdev) maxdev = dv > 100000 ? 100000 : (int)dv;
       cand[i] = (int16_t)(q > 32767 ? 32767 : q < -32768 ? -32768 : q);
     }
-    if (maxdev > LPC_TOL_LSB) {
-      c18::StepDown sc = c18::step_down_Q12(cand, d);
-      bool legit = maxabs > FIT_COMFORT || !sc.stable || sc.gain > GAIN_COMFORT;
-      VP_REQUIRE(legit, "c18:lpc-differs-from-nlsf",
-                 "%s: NLSF=[%s] double-precision LPC (Q12) [%s] is comfortably stable (gain %.1f, max %.0f) but the library gave [%s] (max deviation %d LSB)", what,
-                 vstr(nlsf, d).c_str(), vstr(cand, d).c_str(), sc.gain, maxabs, vstr(a, d).c_str(), maxdev);
+    int gap = std::min((int)nlsf[0], 32768 - nlsf[d - 1]);
+    for (int i = 1; i < d; i++) gap = std::min(gap, nlsf[i] - nlsf[i - 1]);
+    c18::StepDown se = c18::step_down(am, d);
+    bool region = gap >= REGION_MIN_GAP && 4096.0 * (1.0 - sum) >= REGION_MIN_DC && se.stable && se.gain < REGION_MAX_GAIN && maxabs <= REGION_MAX_COEF;
+    if (region) {
+      VP_REQUIRE(maxdev <= LPC_TOL_LSB, "c18:lpc-differs-from-nlsf",
+                 "%s: NLSF=[%s] is well conditioned (min gap %d, gain %.1f): double-precision LPC (Q12) [%s], library [%s] (max deviation %d LSB)", what,
+                 vstr(nlsf, d).c_str(), gap, se.gain, vstr(cand, d).c_str(), vstr(a, d).c_str(), maxdev);
+      fl.lpc_compared = true;
+    } else if (maxdev > LPC_TOL_LSB) {
       fl.bwe = true;
     }
   }
@@ -477,6 +488,13 @@ static int family_rt_gains(Choice& c, Report& rep, Flags& fl) {
   return 0;
 }
 
+// soak/debug aid: C18_FAMILY=n in the environment forces one family (never set by ./check)
+static int g_force_family = -1;
+static int g_rt_gap = 48, g_rt_amp_mul = 1;   // margin experiments only (C18_RT_GAP / C18_RT_AMP)
+extern "C" void vp_init() { const char* e = getenv("C18_FAMILY"); if (e && *e) g_force_family = atoi(e);
+  e = getenv("C18_RT_GAP"); if (e && *e) g_rt_gap = atoi(e);
+  e = getenv("C18_RT_AMP"); if (e && *e) g_rt_amp_mul = atoi(e); }
+
 static int family_rt_nlsf(Choice& c, Report& rep, Flags& fl) {
   int fs = FS[c.irange(0, 2)];
   int nb = c.boolean() ? 4 : 2;
@@ -488,14 +506,28 @@ static int family_rt_nlsf(Choice& c, Report& rep, Flags& fl) {
   gen_residuals(c, pind, d);
   int16_t prev[16];
   silk_NLSF_decode(prev, pind, C.cb);
-  // target vector: sorted, optionally clustered
+  // target vector: a codebook-reachable point (small residuals) plus bounded noise, kept sorted with a gap floor.
+  // (Targets with near-coincident NLSFs make the Laroia weights huge and silk_NLSF_del_dec_quant's 32-bit
+  // rate-distortion accumulator overflow; that is an encoder-search matter outside this property, so the
+  // generator stays with targets the way silk_A2NLSF delivers them for ordinary signals.)
   int16_t tgt[16], tgt0[16];
-  int mode = c.irange(0, 2);
-  for (int i = 0; i < d; i++) {
-    int v = mode == 0 ? c.irange(0, 32767) : mode == 1 ? (i + 1) * 32768 / (d + 1) + c.irange(0, 2000) - 1000 : c.irange(0, 7) * 4096 + c.irange(0, 40);
-    tgt[i] = (int16_t)std::min(32767, std::max(0, v));
+  {
+    opus_int8 bind[MAX_LPC_ORDER + 1];
+    bind[0] = (opus_int8)c.irange(0, 31);
+    for (int i = 1; i <= d; i++) bind[i] = (opus_int8)(c.irange(0, 6) - 3);
+    silk_NLSF_decode(tgt, bind, C.cb);
+    static const int AMP[4] = {0, 8, 32, 100};
+    int amp = AMP[c.irange(0, 3)] * g_rt_amp_mul;
+    int v[16];
+    for (int i = 0; i < d; i++) v[i] = tgt[i] + (amp ? c.irange(0, 2 * amp) - amp : 0);
+    std::sort(v, v + d);
+    const int G = g_rt_gap;
+    if (v[0] < G) v[0] = G;
+    for (int i = 1; i < d; i++) if (v[i] < v[i - 1] + G) v[i] = v[i - 1] + G;
+    if (v[d - 1] > 32767 - G) v[d - 1] = 32767 - G;
+    for (int i = d - 2; i >= 0; i--) if (v[i] > v[i + 1] - G) v[i] = v[i + 1] - G;
+    for (int i = 0; i < d; i++) tgt[i] = (int16_t)v[i];
   }
-  std::sort(tgt, tgt + d);
   memcpy(tgt0, tgt, sizeof tgt);
   silk_encoder_state& e = g_enc;
   memset(&e, 0, sizeof e);
@@ -595,7 +627,7 @@ static int family_enum_nlsf(int fam, Choice& c, Report& rep, Flags& fl) {
       for (int i = 0; i < 5; i++) { ind[1 + i] = (opus_int8)((t % 3) * 10 - 10); t /= 3; }
       Flags f1;
       if (check_nlsf_and_lpc(0, ind, rep, f1)) return 1;
-      nstab += f1.stabilised; nbwe += f1.bwe; fl.clipped |= f1.clipped;
+      nstab += f1.stabilised; nbwe += f1.bwe; fl.clipped |= f1.clipped; fl.lpc_compared |= f1.lpc_compared;
     }
     rep.label("family:enum-nb-block");
     rep.note("NB/MB codebook, stage-1 vector %d, residuals {-10,0,10}^10 block %d (243 vectors): %d stabilised, %d bandwidth-expanded", i1, blk, nstab, nbwe);
@@ -608,7 +640,7 @@ static int family_enum_nlsf(int fam, Choice& c, Report& rep, Flags& fl) {
       for (int i = 0; i < 8; i++) ind[1 + i] = (opus_int8)(((lo >> i) & 1) ? 10 : -10);
       Flags f1;
       if (check_nlsf_and_lpc(1, ind, rep, f1)) return 1;
-      nstab += f1.stabilised; nbwe += f1.bwe; fl.clipped |= f1.clipped;
+      nstab += f1.stabilised; nbwe += f1.bwe; fl.clipped |= f1.clipped; fl.lpc_compared |= f1.lpc_compared;
     }
     rep.label("family:enum-wb-block");
     rep.note("WB codebook, stage-1 vector %d, residuals {-10,10}^16 block %d (256 vectors): %d stabilised, %d bandwidth-expanded", i1, blk, nstab, nbwe);
@@ -617,13 +649,21 @@ static int family_enum_nlsf(int fam, Choice& c, Report& rep, Flags& fl) {
     int cbi = c.byte() & 1, i1 = c.byte() & 31;
     const int d = g_cb[cbi].cb->order;
     ind[0] = (opus_int8)i1;
+    if (cbi == 0 && i1 == 0) {
+      // the NLSF domain is defined through this table: 2*cos(pi*i/128) in Q12 (tuned by hand upstream, max 1.30 off)
+      for (int i = 0; i <= 128; i++) {
+        double e = 8192.0 * std::cos(3.14159265358979323846 * i / 128.0);
+        VP_REQUIRE(std::fabs(silk_LSFCosTab_FIX_Q12[i] - e) <= COSTAB_TOL, "c18:cos-table", "silk_LSFCosTab_FIX_Q12[%d] = %d, 8192*cos(pi*%d/128) = %.2f", i,
+                   silk_LSFCosTab_FIX_Q12[i], i, e);
+      }
+    }
     for (int k = 0; k < d; k++)
       for (int v = -10; v <= 10; v++) {
         for (int i = 0; i < d; i++) ind[1 + i] = 0;
         ind[1 + k] = (opus_int8)v;
         Flags f1;
         if (check_nlsf_and_lpc(cbi, ind, rep, f1)) return 1;
-        nstab += f1.stabilised; nbwe += f1.bwe; fl.clipped |= f1.clipped;
+        nstab += f1.stabilised; nbwe += f1.bwe; fl.clipped |= f1.clipped; fl.lpc_compared |= f1.lpc_compared;
       }
     rep.label("family:enum-single-coefficient");
     rep.note("%s codebook, stage-1 vector %d, each coefficient at -10..10 with the others zero: %d stabilised, %d bandwidth-expanded", g_cb[cbi].name, i1, nstab, nbwe);
@@ -666,6 +706,7 @@ int vp_case(Choice& c, Report& rep) {
   init_cb();
   static const int FAMMAP[16] = {0, 1, 2, 3, 4, 5, 6, 7, 8, 9, 10, 11, 0, 1, 5, 6};
   int fam = FAMMAP[c.byte() & 15];
+  if (g_force_family >= 0) fam = g_force_family;
   Flags fl;
   int r = 0;
   switch (fam) {
@@ -701,6 +742,7 @@ int vp_case(Choice& c, Report& rep) {
   if (fl.stabilised) rep.label("nlsf-stabiliser-active");
   if (fl.clipped) rep.label("nlsf-clipped-to-q15-range");
   if (fl.bwe) rep.label("lpc-bandwidth-expanded-or-fitted");
+  if (fl.lpc_compared) rep.label("lpc-compared-with-double-model");
   if (fl.gain_clamped) rep.label("gain-index-limited");
   if (fl.gain_double) rep.label("gain-double-step");
   if (fl.lag_clamped) rep.label("lag-clamped");
